@@ -171,6 +171,12 @@ func NewTickDriver(mode string) *TickDriver {
 			add(tickOp{kind: "newEpoch", de: de, signer: "A"})
 		}
 		add(tickOp{kind: "newEpoch", mul: 256, signer: "A"})
+	case "C06ring":
+		// the shortest history (two maps): every second tick lands on a ring slot that holds an older map, also
+		// when the candidate set has become empty in between
+		add(tickOp{kind: "addPeerIR", k: 0, signer: "A"}, tickOp{kind: "addPeerIR", k: 1, signer: "A"}, tickOp{kind: "addNode", k: 0, signer: "AN"},
+			tickOp{kind: "updStateIR", k: 0, state: 2, signer: "A"}, tickOp{kind: "updStateIR", k: 1, state: 2, signer: "A"}, tickOp{kind: "updStateIR", k: 0, state: 3, signer: "A"},
+			tickOp{kind: "newEpoch", de: 1, signer: "A"}, tickOp{kind: "newEpoch", de: 2, signer: "A"})
 	case "C06bare":
 		// a 3-key committee (majority account != Alphabet account) and no system subscriber, so
 		// that nothing but Netmap's own check stands between a weaker witness and the tick
@@ -220,6 +226,9 @@ func (d *TickDriver) Build() *World {
 	}
 	if d.Mode == "C06hist" {
 		w.Invoke(dn.Hash, []neotest.Signer{w.AlphaS}, "updateSnapshotCount", int64(256))
+	}
+	if d.Mode == "C06ring" {
+		w.Invoke(dn.Hash, []neotest.Signer{w.AlphaS}, "updateSnapshotCount", int64(2))
 	}
 	w.Freeze()
 	return w
